@@ -19,7 +19,7 @@ pub fn def() -> CheckDef {
         meta: CheckMeta {
             id: "C08",
             level: "exploration",
-            rule: "generated buckets (empty, single entry, single leaf, two- and three-level, mixed key/value + sub-bucket; committed and mid-transaction after generated inserts/deletes). Candidate keys = for every present key k: k, k||00, k minus its last byte, k with last byte +1 / -1, plus the empty key, 00 and ff ff ff. Every candidate is used as a seek key on a fresh cursor and on a cursor that has already yielded some entries or was run to its end (all candidates up to 64 entries, a seeded sample of 96 above); every pair of candidates x {included, excluded, unbounded}^2 is used as a range (all pairs for <= 12 entries, 1500 seeded pairs above) through (Bound,Bound) and the std range types, plain / to_buckets() / to_kv_pairs(); next() is called 1-3 more times after the end; re-used cursors: one cursor seeked to every stored key in ascending order (0-2 entries read in between), in descending order, and along seeded jumps over the candidates, never drained. Oracles: scan = model entries once ascending then None forever; seek flag = presence, entries after seek = contiguous suffix starting at the key or at its predecessor/successor; range = hand-written filter of the model. An evaluation is one query. Non-trivial = query on a bucket of height >= 2 whose bound key is absent, excluded, or whose bounds are reversed, or a re-used-cursor chain. Distinct = hash of (bucket build, modifications, query); capped at 300k per shard (lower bound when capped).",
+            rule: "generated buckets (empty, single entry, single leaf, two- and three-level, mixed key/value + sub-bucket, and buckets of 300-800 small entries; committed and mid-transaction after generated inserts/deletes). Candidate keys = for every present key k: k, k||00, k minus its last byte, k with last byte +1 / -1, plus the empty key, 00 and ff ff ff. Every candidate is used as a seek key on a fresh cursor and on a cursor that has already yielded some entries or was run to its end (all candidates up to 64 entries, a seeded sample of 96 above); every pair of candidates x {included, excluded, unbounded}^2 is used as a range (all pairs for <= 12 entries, 1500 seeded pairs above) through (Bound,Bound) and the std range types, plain / to_buckets() / to_kv_pairs(); next() is called 1-3 more times after the end; re-used cursors: one cursor seeked to every stored key in ascending order (0-2 entries read in between), in descending order, and along seeded jumps over the candidates, never drained. Oracles: scan = model entries once ascending then None forever; seek flag = presence, entries after seek = contiguous suffix starting at the key or at its predecessor/successor; range = hand-written filter of the model. An evaluation is one query. Non-trivial = query on a bucket of height >= 2 whose bound key is absent, excluded, or whose bounds are reversed, or a re-used-cursor chain. Distinct = hash of (bucket build, modifications, query); capped at 300k per shard (lower bound when capped).",
             assumptions: &["seek(absent) may position at the predecessor or the successor (the existing test cursor_seek pins the predecessor)"],
         },
         shard,
@@ -270,6 +270,18 @@ pub fn bucket_strategy() -> impl Strategy<Value = C08Case> {
         3 => (2usize..30).prop_map(|k| start_txs(ShapeKind::TwoLevel, k)),
         3 => (6usize..30).prop_map(|k| start_txs(ShapeKind::ThreeLevel, k)),
         3 => (2usize..30).prop_map(|k| start_txs(ShapeKind::Mixed, k)),
+        // a bucket of several hundred small entries (any work an iterator postpones until it has
+        // yielded a few hundred entries is reached only here)
+        1 => (300u16..800, prop::sample::select(vec![0u8, 8, 20])).prop_map(|(n, klen)| {
+            let mut ops = vec![Op::GetOrCreate { b: 0, k: KeySel::Lit(b"s".to_vec()), kk: 2 }];
+            let mut at = 0u16;
+            while at < n {
+                let m = (n - at).min(250) as u8;
+                ops.push(Op::PutRun { b: 0, base: vec![b'k'], start: at, step: 1, n: m, klen, vlen: 10 });
+                at += m as u16;
+            }
+            vec![TxSpec { kind: TxKind::Commit, ops }]
+        }),
         3 => (prop::collection::vec(op(1024, OpWeights { bucket_delete: 0, ..OpWeights::default() }), 1..25)).prop_map(|ops| {
             let mut v = vec![Op::GetOrCreate { b: 0, k: KeySel::Lit(b"s".to_vec()), kk: 2 }];
             v.extend(ops);
